@@ -20,7 +20,7 @@ ASSUMPTIONS = [
     "re-encoding must keep every key and value of the payload; extra keys are tolerated only when null / empty",
     "with a discriminator the decoded class is identified by its class name",
 ]
-BOUND = {"quick": "576 plain unions of <=3 variants over the 9-variant menu + 60 over composed / formatted-string variants + 280 discriminated unions (modes, nullable, 9 property spellings), 3 positions, <=2 payloads per variant", "thorough": "+ 4-variant unions"}
+BOUND = {"quick": "576 plain unions of <=3 variants over the 9-variant menu + 60 over composed / formatted-string variants + ~300 discriminated unions (modes incl. bare-name and enum-wider-than-mapping, nullable, 9 property spellings) + 12 reversed-pair holders, 3 positions, <=2 payloads per variant", "thorough": "+ 4-variant unions"}
 CHUNK = 1
 PACK = 8
 
